@@ -10,6 +10,7 @@ import (
 	"encoding/binary"
 	"io"
 	"math"
+	"os"
 )
 
 // handleRead handles NFSPROC3_READ - read from file
@@ -45,6 +46,15 @@ func (h *NFSProcedureHandler) handleRead(body io.Reader, reply *RPCReply, authCt
 	node, ok := h.lookupNode(handleVal)
 	if !ok {
 		return nfsErrorWithPostOp(reply, NFSERR_STALE), nil
+	}
+
+	// READ is defined for regular files only; a symlink handle must not be
+	// followed to its target.
+	node.mu.RLock()
+	isSymlink := node.attrs != nil && node.attrs.Mode&os.ModeSymlink != 0
+	node.mu.RUnlock()
+	if isSymlink {
+		return nfsErrorWithPostOp(reply, NFSERR_INVAL), nil
 	}
 
 	// R22: Return NFS error instead of nil,err
@@ -151,6 +161,15 @@ func (h *NFSProcedureHandler) handleWrite(body io.Reader, reply *RPCReply, authC
 	node, ok := h.lookupNode(handleVal)
 	if !ok {
 		return nfsErrorWithWcc(reply, NFSERR_STALE), nil
+	}
+
+	// WRITE is defined for regular files only; a symlink handle must not be
+	// followed to its target.
+	node.mu.RLock()
+	isSymlink := node.attrs != nil && node.attrs.Mode&os.ModeSymlink != 0
+	node.mu.RUnlock()
+	if isSymlink {
+		return nfsErrorWithWcc(reply, NFSERR_INVAL), nil
 	}
 
 	if h.server.options.Debug {
